@@ -406,10 +406,6 @@ def main(ctx):
                 except Exception as e:
                     return rec.fail(case, "wmom(%s) raised %s: %s" % (sorted(kw), type(e).__name__, e))
                 msg = check_moments(r, [xs], [ws], imref, calcerr, sdev, True)
-                if msg and isinstance(imref, list):
-                    # a 1-element array mean may come back with shape (1,)
-                    msg = check_moments(tuple(np.asarray(v).reshape(-1)[0] if np.size(v) == 1 else v for v in r),
-                                        [xs], [ws], imref, calcerr, sdev, True)
                 if msg:
                     return rec.fail(case, "wmom(calcerr=%r, sdev=%r): %s" % (calcerr, sdev, msg))
         oc = _wclass(w) + "|" + _imlabel(im)
@@ -800,7 +796,11 @@ def main(ctx):
                 wcols = [[float(v) for v in c] for c in wspec[1]]
         clip = "nsig" in kw or "niter" in kw
         try:
-            res = stat.get_stats(arr, weights=warg, **kw)
+            if clip:
+                # silent= is forwarded to sigma_clip: keeps "nsig too small" off stderr
+                res = stat.get_stats(arr, weights=warg, silent=True, **kw)
+            else:
+                res = stat.get_stats(arr, weights=warg, **kw)
         except ValueError as e:
             if clip and kind == "2d":
                 return rec.ok(case, outcome="2-d+clipping:refused-ValueError", nontrivial=False, calls=1)
